@@ -170,6 +170,19 @@ CHECKS = {
             "ports-per-line limit, the range-versus-eq policy, exact equality of the union of denotations with the "
             "requested set per side, and refusal exactly where documented; protocols likewise (one line per number).",
             "7 (C18)"),
+    "C20": ("exploration",
+            "TLA+ outcome specification (Outcome) with TLC enumerating the token soups tried; every call of every constructor "
+            "and config-level function on those inputs recorded with its outcome and the re-parse of what it returned; "
+            "outcomes validated by TLC (Trace_C20)",
+            "Enumeration and sampling of the string space, judged against the outcome alphabet: every sequence of <= 3 "
+            "(quick) / 4 (thorough) tokens over a 16-token vocabulary (TLC enumerates them), random soups of 4..9 tokens over "
+            "40 tokens, valid lines truncated / permuted / duplicated / with a token replaced, multi-line ACLs of such lines, "
+            "whole configurations with tabs, irregular and decreasing indents, an indented first line and comment lines, and "
+            "blank inputs, for all 11 classes and acls/aces/addrgroups on asa/ios/nxos; each call runs under a watchdog inside "
+            "the worker, a hard deadline outside it and an address-space limit; TLC requires outcome in {returned, "
+            "ValueError family, TypeError} and that every returned object's text is accepted again. No completeness over "
+            "strings is claimed; 'never endless' is decided up to the watchdog.",
+            "7 (C20)"),
 }
 
 NOT_YET = {
